@@ -12,7 +12,7 @@ def run(check, tier):
     n = 2500 if tier == "quick" else 120000
     cases = []
     for i in range(n):
-        c = S.gen_case(check.seed, i, "vars")
+        c = S.gen_case(check.seed, i, "vars" if i % 6 else "onmatch")
         r = rng(check.seed, "C03-extra", i)
         # observe the position functions and the store at every line through pushes
         extra = r.choice(['push("cl", count_lines())', 'push("ln", line_number())', 'push("cs", count_scans())', 'push("cn", count())',
